@@ -1,0 +1,113 @@
+//go:build verif
+
+// Read-only views and direct entry points for the /verif server checks
+// (C29-C33, C35). Compiled only with -tags verif.
+
+package server
+
+import (
+	"slices"
+	"sort"
+
+	"github.com/gopcua/opcua/ua"
+	"github.com/gopcua/opcua/uasc"
+)
+
+// VerifNodes returns a copy of the node list of the namespace.
+func (ns *NodeNameSpace) VerifNodes() []*Node {
+	ns.mu.RLock()
+	defer ns.mu.RUnlock()
+	return slices.Clone(ns.nodes)
+}
+
+// VerifRefs returns a copy of the node's reference list.
+func (n *Node) VerifRefs() []*ua.ReferenceDescription { return slices.Clone(n.refs) }
+
+// VerifHandlerIDs returns the type ids of all registered service handlers.
+func (s *Server) VerifHandlerIDs() []uint16 {
+	out := make([]uint16, 0, len(s.handlers))
+	for k := range s.handlers {
+		out = append(out, k)
+	}
+	slices.Sort(out)
+	return out
+}
+
+// VerifHandle calls the registered handler of req directly (no wire, no dispatcher goroutine).
+func (s *Server) VerifHandle(sc *uasc.SecureChannel, req ua.Request, reqID uint32) (ua.Response, error, bool) {
+	h, ok := s.handlers[ua.ServiceTypeID(req)]
+	if !ok {
+		return nil, nil, false
+	}
+	resp, err := h(sc, req, reqID)
+	return resp, err, true
+}
+
+// VerifSessionTokens returns the authentication tokens of all sessions the broker knows, sorted.
+func (s *Server) VerifSessionTokens() []string {
+	s.sb.mu.Lock()
+	defer s.sb.mu.Unlock()
+	out := make([]string, 0, len(s.sb.s))
+	for k := range s.sb.s {
+		out = append(out, k)
+	}
+	sort.Strings(out)
+	return out
+}
+
+// VerifChannelCount returns the number of secure channels registered with the broker.
+func (s *Server) VerifChannelCount() int {
+	s.cb.mu.RLock()
+	defer s.cb.mu.RUnlock()
+	return len(s.cb.s)
+}
+
+// VerifSubOwner returns the authentication token of the session owning the subscription ("" if none).
+func (sub *Subscription) VerifSubOwner() string {
+	if sub == nil || sub.Session == nil {
+		return ""
+	}
+	return sub.Session.AuthTokenID.String()
+}
+
+// VerifEnabledSecurity returns the configured (policy URI, mode) pairs.
+func (s *Server) VerifEnabledSecurity() (pols []string, modes []ua.MessageSecurityMode) {
+	for _, e := range s.cfg.enabledSec {
+		pols = append(pols, e.secPolicy)
+		modes = append(modes, e.secMode)
+	}
+	return
+}
+
+// VerifChannels returns the server-side secure channels currently registered, ordered by channel id.
+func (s *Server) VerifChannels() []*uasc.SecureChannel {
+	s.cb.mu.RLock()
+	defer s.cb.mu.RUnlock()
+	ids := make([]uint32, 0, len(s.cb.s))
+	for k := range s.cb.s {
+		ids = append(ids, k)
+	}
+	slices.Sort(ids)
+	out := make([]*uasc.SecureChannel, 0, len(ids))
+	for _, k := range ids {
+		out = append(out, s.cb.s[k])
+	}
+	return out
+}
+
+// VerifAttrs returns a copy of the node's attribute map.
+func (n *Node) VerifAttrs() map[ua.AttributeID]*ua.DataValue {
+	out := make(map[ua.AttributeID]*ua.DataValue, len(n.attr))
+	for k, v := range n.attr {
+		out[k] = v
+	}
+	return out
+}
+
+// VerifPendingPublish returns the number of queued publish requests of the subscription's session (-1: no session).
+func (sub *Subscription) VerifPendingPublish() int {
+	if sub == nil || sub.Session == nil {
+		return -1
+	}
+	return len(sub.Session.PublishRequests)
+}
